@@ -3598,6 +3598,9 @@ class ControlConnection(object):
 
     _uses_peers_v2 = True
 
+    # (partitioner, {endpoint: tokens}) the token map was last rebuilt from
+    _token_map_source = None
+
     # for testing purposes
     _time = time
 
@@ -3999,9 +4002,14 @@ class ControlConnection(object):
                 self._cluster.remove_host(old_host)
 
         log.debug("[control connection] Finished fetching ring info")
-        if partitioner and should_rebuild_token_map:
-            log.debug("[control connection] Rebuilding token map due to topology changes")
-            self._cluster.metadata.rebuild_token_map(partitioner, token_map)
+        if partitioner:
+            # tokens can change while membership and locations stay the same (e.g. a node was moved
+            # while the MOVED_NODE event was missed), so also compare with what the map was last built from
+            token_map_source = (partitioner, dict((host.endpoint, frozenset(tokens)) for host, tokens in token_map.items()))
+            if should_rebuild_token_map or token_map_source != self._token_map_source:
+                log.debug("[control connection] Rebuilding token map due to topology changes")
+                self._cluster.metadata.rebuild_token_map(partitioner, token_map)
+                self._token_map_source = token_map_source
 
     @staticmethod
     def _is_valid_peer(row):
